@@ -91,6 +91,15 @@ def s12_gives_up_only_without_both(chk: Check, proj: Project, m, rule: str = "S1
         else:
             chk.violated(rule, key, m.loc(r), f"`return None` under {sorted(at)} does not require both kinds to be absent: the other kind is never inserted")
     chk.floor(rule, n, 2)
+    # the flag the final give-up tests is raised next to EVERY insertion
+    flagv = next((t.split()[-1] for r in nones for t, pol in cond_atoms(r) if t.startswith("not ") and " " not in t[4:]), None) or next((t for r in nones for t, pol in cond_atoms(r) if not pol and t.isidentifier()), None)
+    if flagv:
+        for st, _S, _i, _c in _insertions(f):
+            blk = next((getattr(par_, fld) for par_ in [st.parent] for fld in ("body", "orelse") if isinstance(getattr(par_, fld, None), list) and st in getattr(par_, fld)), [])  # type: ignore[attr-defined]
+            sets_flag = any(isinstance(x, ast.Assign) and norm(x.targets[0]) == flagv and isinstance(x.value, ast.Constant) and x.value.value is True for x in blk)
+            chk.ob(rule, f"dependencies:_insert_js_css_to_default_locations:{flagv}-set-with-insertion-of-{_c}", m.loc(st), sets_flag,
+                   f"`{flagv} = True` accompanies the insertion of `{_c}`" if sets_flag else
+                   f"the insertion of `{_c}` is not followed by `{flagv} = True`: when it is the ONLY insertion of the call (a page without </head>, or a CSS placeholder plus default-location JS) the helper reports 'nothing changed', the caller keeps the text without the insertion, and the {_c.split('_')[0].upper()} is silently dropped")
     # ... and the caller lets the helper decide: whether the document HAS an insertion point is the helper's regex scan; a
     # pre-test of the content at the call site can only be narrower than that scan
     rf = m.func("render_dependencies")
